@@ -52,10 +52,14 @@ func (s *recStore) Append(h []H) error {
 	s.mu.Unlock()
 	return s.inner.Append(h)
 }
-func (s *recStore) Flush() error                   { return s.inner.Flush() }
-func (s *recStore) Close()                         { s.inner.Close() }
-func (s *recStore) GetHash(pos uint32) (H, error)  { return s.inner.GetHash(pos) }
-func (s *recStore) written() (appends, hashes int) { s.mu.Lock(); defer s.mu.Unlock(); return s.appends, s.hashes }
+func (s *recStore) Flush() error                  { return s.inner.Flush() }
+func (s *recStore) Close()                        { s.inner.Close() }
+func (s *recStore) GetHash(pos uint32) (H, error) { return s.inner.GetHash(pos) }
+func (s *recStore) written() (appends, hashes int) {
+	s.mu.Lock()
+	defer s.mu.Unlock()
+	return s.appends, s.hashes
+}
 
 // ---------------------------------------------------------------- helpers
 
